@@ -70,6 +70,38 @@ pub fn layer_parse<'a>(proto: Proto, layer: Layer, keys: &'a LibKeys<'a>, token:
   }
 }
 
+/// Two parses through ONE parser object (state kept between calls is part of what is tested): first
+/// (token1, keys1, footer1, assertion1), then (token2, keys2, footer2, assertion2). At the core layer these are two
+/// independent calls of the associated functions.
+#[allow(clippy::too_many_arguments)]
+pub fn parse_twice<'a>(
+  proto: Proto,
+  layer: Layer,
+  first: (&'a str, &'a LibKeys<'a>, Option<&'a str>, Option<&'a str>),
+  second: (&'a str, &'a LibKeys<'a>, Option<&'a str>, Option<&'a str>),
+) -> (Result<LayerOut, LibErr>, Result<LayerOut, LibErr>) {
+  match layer {
+    Layer::Core => (core_parse(first.1, first.0, first.2, first.3).map(LayerOut::Text), core_parse(second.1, second.0, second.2, second.3).map(LayerOut::Text)),
+    l => {
+      let mut p = new_parser(proto, l);
+      if let Some(f) = first.2 {
+        p.footer(f);
+      }
+      if let Some(a) = first.3 {
+        p.assertion(a);
+      }
+      let r1 = p.parse(first.0, first.1).map(LayerOut::Json);
+      // re-configure the same parser (an absent footer/assertion is the empty one)
+      p.footer(second.2.unwrap_or(""));
+      if proto.has_assertion() {
+        p.assertion(second.3.unwrap_or(""));
+      }
+      let r2 = p.parse(second.0, second.1).map(LayerOut::Json);
+      (r1, r2)
+    }
+  }
+}
+
 /// keys expected in the payload object produced by `layer_build`
 pub fn expected_members(layer: Layer) -> &'static [&'static str] {
   match layer {
